@@ -52,6 +52,9 @@ StrictExact ==
   /\ (e.pc \in {"chir", "emit", "done"} /\ e.strict) => Overfull(e) = {}
 (* hence an accepted strict encoding decodes to the same molecule (SameAtoms / SameBonds above) *)
 
+(* the slot-wise AroEdges is the pairwise definition *)
+AroEdgesAgree == AroEdges(e.adj) = AroEdgesDef(e.adj) /\ AroEdges(e.p.adj) = AroEdgesDef(e.p.adj)
+
 (* C09 (design side): only two terminal outcomes; termination is EncTerminates *)
 TwoOutcomes == ETerminal(e) => EOutcome(e).kind \in {"ok", "EncoderError"}
 
